@@ -309,6 +309,14 @@ static void closerace(int nops,unsigned seed,std::vector<aio::event_handler> &ke
 static void badfd(int nops,unsigned seed,std::vector<aio::event_handler> &keep,std::vector<aio::handler> &keep2)
 {
 	vt::rng R(seed);
+	{
+		// the loop must be up (its wake-up pipe opened) before descriptor NUMBERS of closed descriptors are handed to it:
+		// otherwise the loop opens its own pipe under such a number and the stale registration hits the pipe
+		int h0=next_h++; plain_handler pf={h0}; aio::handler ph(pf); keep2.push_back(ph);
+		bv::emit("\"e\":\"Reg\",\"h\":%d,\"p\":%lu,\"kind\":\"post\"",h0,pid_of(ph.get_pointer().get()));
+		reg_count++; srv->post(ph);
+		for(int spin=0;spin<300000 && hstates[h0].runs.load()==0;spin++) usleep(100);
+	}
 	for(int n=0;n<nops;n++) {
 		int fd=-1; bool close_after=false;
 		unsigned kind=R(4);
